@@ -161,6 +161,13 @@ def main():
     for scen, bound in plan:
         outs[scen] = explore(ck, scen, bound, stats)
     n_tsan = tsan_pass(ck, quick)
+    # per-scanner timeouts are private only if the deadline is measured on a clock that other threads' work does not advance
+    w = yv.get_worker("plain")
+    rep = w.batch(["reset", "compiler 0", "add 0 - " + yv.hx("rule r { condition: for all i in (0..1000) : (i >= 0) }"), "getrules 0 0", "cdestroy 0", "scanner 0 0", "scan target=s0 via=mem timeout=5 data=6162"])
+    if rep[-1].get("clk") in (2, 3):
+        ck.violation("C09:timeout-clock-shared-between-threads", dict(clock_id=rep[-1].get("clk"), note="2 = CLOCK_PROCESS_CPUTIME_ID: advances with the CPU time of ALL threads; 3 = per-thread CPU time (not wall time)"))
+    ck.sub("timeout-clock", clock_id=rep[-1].get("clk"))
+    yv.drop_worker("plain")
     ck.cov["states"] = max(1, stats["states"])
     ck.cov["transitions"] = max(1, stats["transitions"])
     ck.cov["traces_validated_against_impl"] = stats["executions"]
